@@ -18,6 +18,10 @@ which turns the imperative body into one expression: a tree of conditionals whos
 the current one remain, `index -= 1` = the current character is given back, `index = end_index` =
 nothing remains.
 
+Two further executors below serve `expand_by_wrapper` (buffers, small counters, helper calls)
+and `eval_condition_for_slice` (a token loop with `match`, `Option<bool>` / integer / enum locals,
+early returns and a recursive call on a slice; it has its own parser for whole function bodies).
+
 Anything outside the subset raises SystemExit (the caller then falls back, see bin/extract.py)."""
 import re
 
@@ -83,7 +87,7 @@ TOKEN = re.compile(r"""
     (?P<str>"(\\.|[^"\\])*") |
     (?P<id>[A-Za-z_][A-Za-z_0-9]*) |
     (?P<num>[0-9]+) |
-    (?P<op>==|!=|&&|\|\||\+=|-=|::|\.\.|[{}()\[\];.,!=&<>])
+    (?P<op>==|=>|!=|&&|\|\||\+=|-=|::|\.\.|[{}()\[\];.,!=&<>+\-])
 """, re.X)
 
 def tokenize(text):
@@ -635,3 +639,584 @@ def grender(expr, indent, cfg):
     if not env:
         return pad + cfg.state_var
     return "%s{ %s with %s }" % (pad, cfg.state_var, ", ".join("%s := %s" % (cfg.field(k), v) for k, v in env.items()))
+
+# =============================================================================================
+# third executor: a token loop with `match`, `Option<bool>` / integer / enum locals, early
+# `return Ok(..)` / `return Err(..)` and a recursive call on a slice (`eval_condition_for_slice`,
+# duckscript_sdk/src/utils/condition.rs).
+#
+# The parser below reads whole function bodies:
+#   statements   let [mut] x = e ;   x = e ;   x += e ;   x -= e ;   if c {..} [else if .. | else {..}]
+#                match e { pat => {..} | pat => stmt , … } [;]   for x in xs {..}   return e ;
+#                a trailing expression without `;` (`Ok(e)`, `Err(e)`, an assignment)
+#                let x = if c { e1 } else { e2 } ;   (lifted into control flow)
+#   patterns     Enum::Variant   _   Ok(x)   Err(x)
+#   expressions  true false None Some(e) Ok(e) Err(e) Enum::Variant "text" 123 x  f(e, …)
+#                format!("text", …)   e.method(e, …)   !e   &e   e && e   e || e
+#                e == e   e != e   e < e   e > e   e + n   e - n   xs[a..b]   (e)
+# The executor tracks every local as a symbolic VALUE over the state at the start of the
+# iteration (booleans, `Option<bool>`, integers in the form `field + constant`, enum
+# constructors), folds what is known on the path (`Some(e).unwrap()` is `e`), and renders
+#   * `match <enum local>`  as a Lean `match` with one arm per variant, in DECLARATION order
+#     (wildcards expanded: Rust arms of a field-less enum are order-independent up to `_`),
+#   * `match <self>(&xs[a..b]) { Ok(x) => .., Err(e) => .. }` as a range check (a slice out of
+#     range panics in Rust: explicit `.panic` leaf) and a `match` on the evaluator parameter,
+#   * `.unwrap()` of a value not known to be `Some` as a `match` with a `.panic` arm.
+# Leaves: `.cont <state>` (end of the loop body), `.ret b` / `.ok b`, `.err kind`, `.panic`.
+# =============================================================================================
+
+def cparse_block(text):
+    p = P(tokenize(text))
+    b = _cblock(p)
+    if p.peek()[0] != "eof":
+        fail("trailing tokens after the block")
+    return b
+
+def _cblock(p):
+    p.take("{")
+    out = []
+    while not p.at("}"):
+        out.append(_cstmt(p))
+    p.take("}")
+    return out
+
+def _cend(p):
+    """end of a simple statement: `;`, or nothing right before `}` (trailing expression)"""
+    if p.at(";"):
+        p.take(); return True
+    if p.at("}"):
+        return False
+    fail("expected `;`, found %r" % (p.peek()[1],))
+
+def _cstmt(p):
+    if p.at("let"):
+        p.take()
+        mut = False
+        if p.at("mut"):
+            p.take(); mut = True
+        name = p.take()
+        if name[0] != "id": fail("unsupported `let` pattern")
+        p.take("=")
+        e = _cexpr(p)
+        p.take(";")
+        return ("let", name[1], mut, e)
+    if p.at("if"):
+        return _cif(p)
+    if p.at("match"):
+        p.take()
+        scrut = _cexpr(p)
+        p.take("{")
+        arms = []
+        while not p.at("}"):
+            pat = _cpat(p)
+            p.take("=>")
+            if p.at("{"):
+                body = _cblock(p)
+                if p.at(","): p.take()
+            else:
+                body = [_csimple(p, in_arm=True)]
+                if p.at(","): p.take()
+                elif not p.at("}"): fail("expected `,` after a match arm")
+            arms.append((pat, body))
+        p.take("}")
+        if p.at(";"): p.take()
+        return ("match", scrut, arms)
+    if p.at("for"):
+        p.take(); x = p.take()
+        if x[0] != "id": fail("unsupported `for` pattern")
+        p.take("in")
+        it = _cexpr(p)
+        return ("for", x[1], it, _cblock(p))
+    return _csimple(p, in_arm=False)
+
+def _csimple(p, in_arm):
+    """return / assignment / expression statement; inside a match arm no terminator is read"""
+    if p.at("return"):
+        p.take()
+        e = _cexpr(p)
+        if not in_arm: _cend(p)
+        return ("return", e)
+    e = _cexpr(p)
+    if p.at("=") or p.at("+=") or p.at("-="):
+        op = p.take()[1]
+        if e[0] != "id": fail("assignment to something that is not a local")
+        rhs = _cexpr(p)
+        if not in_arm: _cend(p)
+        return ("assign", e[1], op, rhs)
+    if in_arm:
+        return ("expr", e)
+    if _cend(p):
+        fail("expression statement with `;` has no effect in the subset")
+    return ("expr", e)
+
+def _cif(p):
+    p.take("if")
+    cond = _cexpr(p)
+    then = _cblock(p)
+    els = None
+    if p.at("else"):
+        p.take()
+        els = [_cif(p)] if p.at("if") else _cblock(p)
+    return ("if", cond, then, els)
+
+def _cpat(p):
+    tok = p.take()
+    if tok[0] != "id": fail("unsupported pattern %r" % (tok[1],))
+    if tok[1] == "_": return ("pwild",)
+    if p.at("::"):
+        p.take(); v = p.take()[1]
+        return ("pctor", tok[1], v)
+    if tok[1] in ("Ok", "Err") and p.at("("):
+        p.take(); x = p.take()
+        if x[0] != "id": fail("unsupported pattern inside %s(..)" % tok[1])
+        p.take(")")
+        return ("pok" if tok[1] == "Ok" else "perr", x[1])
+    fail("unsupported pattern %r" % (tok[1],))
+
+def _cexpr(p):
+    a = _cexpr_and(p)
+    while p.at("||"):
+        p.take(); a = ("bin", "||", a, _cexpr_and(p))
+    return a
+
+def _cexpr_and(p):
+    a = _cexpr_cmp(p)
+    while p.at("&&"):
+        p.take(); a = ("bin", "&&", a, _cexpr_cmp(p))
+    return a
+
+def _cexpr_cmp(p):
+    a = _cexpr_add(p)
+    if p.peek()[1] in ("==", "!=", "<", ">"):
+        op = p.take()[1]
+        return ("bin", op, a, _cexpr_add(p))
+    return a
+
+def _cexpr_add(p):
+    a = _cexpr_unary(p)
+    while p.peek()[1] in ("+", "-"):
+        op = p.take()[1]; a = ("bin", op, a, _cexpr_unary(p))
+    return a
+
+def _cexpr_unary(p):
+    if p.at("!"):
+        p.take(); return ("not", _cexpr_unary(p))
+    if p.at("&"):
+        p.take()
+        if p.at("mut"): fail("`&mut` is outside the subset")
+        return _cexpr_unary(p)          # a shared reference is the value itself
+    return _cexpr_postfix(p)
+
+def _cargs(p):
+    p.take("(")
+    args = []
+    while not p.at(")"):
+        args.append(_cexpr(p))
+        if p.at(","): p.take()
+        elif not p.at(")"): fail("expected `,` or `)` in an argument list")
+    p.take(")")
+    return args
+
+def _cexpr_postfix(p):
+    e = _cexpr_primary(p)
+    while True:
+        if p.at(".") :
+            p.take(); m = p.take()
+            if m[0] != "id": fail("unsupported field access")
+            e = ("method", e, m[1], _cargs(p))
+        elif p.at("["):
+            p.take()
+            lo = None if p.at("..") else _cexpr_add(p)
+            if not p.at(".."): fail("indexing (not slicing) is outside the subset")
+            p.take("..")
+            hi = None if p.at("]") else _cexpr_add(p)
+            p.take("]")
+            e = ("slice", e, lo, hi)
+        else:
+            return e
+
+def _cexpr_primary(p):
+    tok = p.take()
+    if tok[0] == "str": return ("lit_str", unescape(tok[1][1:-1]))
+    if tok[0] == "num": return ("num", int(tok[1]))
+    if tok[1] == "(":
+        e = _cexpr(p); p.take(")"); return e
+    if tok[1] == "if":
+        p.i -= 1
+        s = _cif(p)
+        return ("ifexpr",) + s[1:]
+    if tok[0] != "id": fail("unsupported expression starting with %r" % (tok[1],))
+    name = tok[1]
+    if name in ("true", "false"): return ("bool", name == "true")
+    if name == "None": return ("none",)
+    if name in ("Some", "Ok", "Err") and p.at("("):
+        args = _cargs(p)
+        if len(args) != 1: fail("%s(..) takes one argument" % name)
+        return ({"Some": "some", "Ok": "ok", "Err": "errc"}[name], args[0])
+    if p.at("::"):
+        p.take(); v = p.take()[1]
+        return ("path", name, v)
+    if p.at("!") and p.peek(1)[1] == "(":
+        p.take()
+        return ("macro", name, _cargs(p))
+    if p.at("("):
+        return ("call", name, _cargs(p))
+    return ("id", name)
+
+class CConfig:
+    def __init__(self, state_var, item_name, item_var, args_name, args_var, self_name, ev_var,
+                 locals, enum_name, variants, errors, funcs):
+        """locals: Rust local -> (Lean field, type) with type in bool / opt / int / nat / enum;
+        variants: ordered list of (Rust variant, Lean constructor); errors: message text -> Lean
+        error kind; funcs: Rust fn(Option<String>) -> bool  ->  Lean function"""
+        self.state_var, self.item_name, self.item_var = state_var, item_name, item_var
+        self.args_name, self.args_var, self.self_name, self.ev_var = args_name, args_var, self_name, ev_var
+        self.locals, self.enum_name, self.variants, self.errors, self.funcs = locals, enum_name, variants, errors, funcs
+
+class CEnv:
+    def __init__(self, vals=None, dirty=None, binds=None, fresh=0):
+        self.vals, self.dirty, self.binds, self.fresh = dict(vals or {}), list(dirty or []), dict(binds or {}), fresh
+    def copy(self):
+        return CEnv(self.vals, self.dirty, self.binds, self.fresh)
+    def set(self, name, val):
+        self.vals[name] = val
+        if name not in self.dirty: self.dirty.append(name)
+
+class _Panic(Exception):
+    pass
+
+class _NeedSome(Exception):
+    def __init__(self, local): self.local = local
+
+T, F = ("T",), ("F",)
+
+def _ctype(v):
+    return {"T": "bool", "F": "bool", "b": "bool", "and": "bool", "or": "bool", "not": "bool", "getD": "bool",
+            "isNone": "bool", "streq": "bool", "icmp": "bool", "app": "bool", "none": "opt", "some": "opt", "o": "opt",
+            "n": "num", "ctor": "enum", "e": "enum", "s": "str", "errv": "err"}[v[0]]
+
+def _cnot(a):
+    if a == T: return F
+    if a == F: return T
+    if a[0] == "not": return a[1]
+    return ("not", a)
+
+def _cand(a, b):
+    if a == F or b == F: return F
+    if a == T: return b
+    if b == T: return a
+    return ("and", a, b)
+
+def _cor(a, b):
+    if a == T or b == T: return T
+    if a == F: return b
+    if b == F: return a
+    return ("or", a, b)
+
+def _clocal(name, env, cfg):
+    if name in env.vals: return env.vals[name]
+    field, ty = cfg.locals[name]
+    ref = "%s.%s" % (cfg.state_var, field)
+    return {"bool": ("b", ref), "opt": ("o", ref), "enum": ("e", ref),
+            "int": ("n", ref, 0, "int"), "nat": ("n", ref, 0, "nat")}[ty]
+
+def ceval(e, env, cfg, strict=True):
+    """symbolic value of an expression; `strict` is False in the right operand of `&&` / `||`
+    (evaluated only sometimes: a panic there cannot be lifted out)"""
+    k = e[0]
+    if k == "bool": return T if e[1] else F
+    if k == "num": return ("n", None, e[1], None)
+    if k == "none": return ("none",)
+    if k == "some":
+        v = ceval(e[1], env, cfg, strict)
+        if _ctype(v) not in ("bool", "str"): fail("Some(..) of an unsupported value")
+        return ("some", v)
+    if k == "path":
+        if e[1] != cfg.enum_name or e[2] not in dict(cfg.variants): fail("unknown constant %s::%s" % (e[1], e[2]))
+        return ("ctor", e[2], dict(cfg.variants)[e[2]])
+    if k == "id":
+        name = e[1]
+        if name in env.binds: return env.binds[name]
+        if name in cfg.locals: return _clocal(name, env, cfg)
+        if name == cfg.item_name: return ("s", cfg.item_var)
+        fail("unknown variable %s" % name)
+    if k == "not":
+        v = ceval(e[1], env, cfg, strict)
+        if _ctype(v) != "bool": fail("`!` of a non-boolean")
+        return _cnot(v)
+    if k == "bin":
+        op = e[1]
+        if op in ("&&", "||"):
+            a, b = ceval(e[2], env, cfg, strict), ceval(e[3], env, cfg, False)
+            if _ctype(a) != "bool" or _ctype(b) != "bool": fail("`%s` of non-booleans" % op)
+            return _cand(a, b) if op == "&&" else _cor(a, b)
+        a = ceval(e[2], env, cfg, strict)
+        if e[3][0] == "lit_str":
+            if _ctype(a) != "str" or op not in ("==", "!="): fail("unsupported comparison with a string literal")
+            v = ("streq", a[1], e[3][1])
+            return v if op == "==" else ("not", v)
+        b = ceval(e[3], env, cfg, strict)
+        if op in ("+", "-"):
+            if _ctype(a) != "num" or _ctype(b) != "num" or b[1] is not None: fail("unsupported arithmetic")
+            if op == "-" and a[3] != "int": fail("subtraction on an unsigned local (can panic) is outside the subset")
+            return ("n", a[1], a[2] + (b[2] if op == "+" else -b[2]), a[3])
+        if _ctype(a) == "num" and _ctype(b) == "num" and b[1] is None:
+            if a[1] is None:
+                return T if {"==": a[2] == b[2], "!=": a[2] != b[2], "<": a[2] < b[2], ">": a[2] > b[2]}[op] else F
+            if op == "!=": return ("not", ("icmp", "=", a, b[2]))
+            return ("icmp", {"==": "="}.get(op, op), a, b[2])
+        fail("unsupported comparison")
+    if k == "lit_str":
+        fail("a string literal is only supported as the right-hand side of a comparison or as an error text")
+    if k == "method":
+        m, args = e[2], e[3]
+        if m == "to_string" and not args:
+            v = ceval(e[1], env, cfg, strict)
+            if _ctype(v) != "str": fail("to_string of a non-string")
+            return v
+        r = ceval(e[1], env, cfg, strict)
+        if _ctype(r) != "opt": fail("unsupported method .%s" % m)
+        if m == "unwrap_or" and len(args) == 1:
+            d = ceval(args[0], env, cfg, strict)
+            if _ctype(d) != "bool": fail("unwrap_or of a non-boolean")
+            if r[0] == "some": return r[1]
+            if r[0] == "none": return d
+            return ("getD", r, d)
+        if m in ("is_none", "is_some") and not args:
+            v = T if r[0] == "none" else F if r[0] == "some" else ("isNone", r)
+            return v if m == "is_none" else _cnot(v)
+        if m == "unwrap" and not args:
+            if r[0] == "some": return r[1]
+            if not strict: fail("unwrap() in a short-circuited operand")
+            if r[0] == "none": raise _Panic()
+            if e[1][0] == "id" and e[1][1] in cfg.locals: raise _NeedSome(e[1][1])
+            fail("unwrap() of a compound expression")
+        fail("unsupported method .%s" % m)
+    if k == "call":
+        if e[1] in cfg.funcs and len(e[2]) == 1:
+            a = ceval(e[2][0], env, cfg, strict)
+            if a[0] == "none" or (a[0] == "some" and _ctype(a[1]) == "str"):
+                return ("app", cfg.funcs[e[1]], a)
+        fail("unsupported call of %s" % e[1])
+    fail("unsupported expression %r" % (k,))
+
+def _cerrkind(e, env, cfg):
+    """the payload of `Err(..)`: a message text (mapped to its kind) or a passed-through error"""
+    while e[0] == "method" and e[2] == "to_string" and not e[3]:
+        e = e[1]
+    if e[0] == "macro" and e[1] == "format" and e[2] and e[2][0][0] == "lit_str":
+        text = e[2][0][1]
+    elif e[0] == "lit_str":
+        text = e[1]
+    elif e[0] == "id" and env.binds.get(e[1], ("?",))[0] == "errv":
+        return ("errpass", e[1])
+    else:
+        fail("unsupported error value")
+    if text not in cfg.errors: fail("unknown error text %r" % text)
+    return ("err", cfg.errors[text])
+
+def ctranslate(stmts, cfg, mode, binds=None):
+    """mode `step`: a loop body (falling off the end = next iteration); mode `final`: code whose
+    last expression is the function's result"""
+    return _cexec(list(stmts), CEnv(binds=binds), cfg, mode)
+
+def _cresult(e, env, cfg):
+    if e[0] == "ok":
+        v = ceval(e[1], env, cfg)
+        if _ctype(v) != "bool": fail("Ok(..) of a non-boolean")
+        return ("ret", v)
+    if e[0] == "errc":
+        return _cerrkind(e[1], env, cfg)
+    fail("unsupported result expression")
+
+def _cexec(stmts, env, cfg, mode):
+    if not stmts:
+        if mode == "step": return ("cont", env)
+        fail("control reaches the end of the function without a result")
+    s, rest = stmts[0], stmts[1:]
+    try:
+        return _cexec1(s, rest, env.copy(), cfg, mode)
+    except _Panic:
+        return ("panic",)
+    except _NeedSome as need:
+        # `<local>.unwrap()` of a value that is not known: split on it, panic in the `None` arm
+        var = "v%d" % env.fresh
+        e2 = env.copy(); e2.fresh += 1
+        scrut = ropt(_clocal(need.local, env, cfg))
+        e2.vals[need.local] = ("some", ("b", var))      # known, not assigned: not marked dirty
+        return ("matchopt", scrut, var, _cexec(stmts, e2, cfg, mode), ("panic",))
+
+def _cexec1(s, rest, env, cfg, mode):
+    k = s[0]
+    if k == "let":
+        if s[3][0] == "ifexpr":
+            # let x = if c { .. e1 } else { .. e2 };   ==>   if c { .. let x = e1; } else { .. let x = e2; }
+            def tail(block):
+                if not block or block[-1][0] != "expr": fail("`if` expression without a value")
+                return list(block[:-1]) + [("let", s[1], s[2], block[-1][1])]
+            if s[3][3] is None: fail("`if` expression without `else`")
+            return _cexec([("if", s[3][1], tail(s[3][2]), tail(s[3][3]))] + rest, env, cfg, mode)
+        if s[2]: fail("a mutable local declared inside the translated code")
+        env.binds[s[1]] = ceval(s[3], env, cfg)
+        return _cexec(rest, env, cfg, mode)
+    if k == "assign":
+        name, op = s[1], s[2]
+        if name not in cfg.locals: fail("assignment to %s" % name)
+        ty = cfg.locals[name][1]
+        rhs = s[3] if op == "=" else ("bin", op[0], ("id", name), s[3])
+        v = ceval(rhs, env, cfg)
+        vt = _ctype(v)
+        if vt == "num":
+            if ty not in ("int", "nat") or (v[3] is not None and v[3] != ty): fail("ill-typed assignment to %s" % name)
+            if ty == "nat" and v[2] < 0: fail("negative value for an unsigned local")
+            v = ("n", v[1], v[2], ty)
+        elif vt == "opt":
+            if ty != "opt" or (v[0] == "some" and _ctype(v[1]) != "bool"): fail("ill-typed assignment to %s" % name)
+        elif vt != ty:
+            fail("ill-typed assignment to %s" % name)
+        env.set(name, v)
+        return _cexec(rest, env, cfg, mode)
+    if k == "if":
+        c = ceval(s[1], env, cfg)
+        if _ctype(c) != "bool": fail("non-boolean condition")
+        if c == T: return _cexec(list(s[2]) + rest, env, cfg, mode)
+        if c == F: return _cexec(list(s[3] or []) + rest, env, cfg, mode)
+        return ("ite", c, _cexec(list(s[2]) + rest, env.copy(), cfg, mode), _cexec(list(s[3] or []) + rest, env.copy(), cfg, mode))
+    if k == "return":
+        return _cresult(s[1], env, cfg)
+    if k == "expr":
+        if rest or mode != "final": fail("an expression statement that is not the function's result")
+        return _cresult(s[1], env, cfg)
+    if k == "match":
+        scrut, arms = s[1], s[2]
+        if scrut[0] == "call" and scrut[1] == cfg.self_name:
+            return _cmatch_self(scrut, arms, rest, env, cfg, mode)
+        if scrut[0] != "id" or scrut[1] not in cfg.locals or cfg.locals[scrut[1]][1] != "enum":
+            fail("`match` on something that is neither an enum local nor the recursive call")
+        v = _clocal(scrut[1], env, cfg)
+        def arm_for(variant):
+            for pat, body in arms:
+                if pat == ("pwild",) or pat == ("pctor", cfg.enum_name, variant):
+                    return body
+                if pat[0] != "pctor" or pat[1] != cfg.enum_name or pat[2] not in dict(cfg.variants):
+                    fail("unsupported pattern in a match on %s" % cfg.enum_name)
+            fail("match on %s does not cover %s" % (cfg.enum_name, variant))
+        if v[0] == "ctor":
+            return _cexec(list(arm_for(v[1])) + rest, env, cfg, mode)
+        return ("matchenum", v[1], [(lean, _cexec(list(arm_for(rv)) + rest, env.copy(), cfg, mode)) for rv, lean in cfg.variants])
+    fail("unsupported statement %r" % (k,))
+
+def _cmatch_self(scrut, arms, rest, env, cfg, mode):
+    a = scrut[2]
+    if len(a) != 1 or a[0][0] != "slice" or a[0][1] != ("id", cfg.args_name) or a[0][2] is None or a[0][3] is None:
+        fail("the recursive call is not on a slice `%s[a..b]`" % cfg.args_name)
+    lo, hi = ceval(a[0][2], env, cfg), ceval(a[0][3], env, cfg)
+    for b in (lo, hi):
+        if _ctype(b) != "num" or b[3] == "int": fail("slice bounds must be unsigned locals")
+    pats = [p[0] for p, _ in arms]
+    if sorted(pats) != ["perr", "pok"]: fail("the match on the recursive call must have the arms Ok(x) and Err(e)")
+    trees = {}
+    for pat, body in arms:
+        e2 = env.copy()
+        e2.binds[pat[1]] = ("b", pat[1]) if pat[0] == "pok" else ("errv", pat[1])
+        trees[pat[0]] = (pat[1], _cexec(list(body) + rest, e2, cfg, mode))
+    return ("matchev", rnum(lo), rnum(hi), trees["pok"], trees["perr"])
+
+# ------------------------------------------------------------- rendering of the third executor
+
+def _atomic(s):
+    return re.match(r"^[\w.']+$", s) is not None
+
+def _par(s):
+    return s if _atomic(s) or (s[0] == "(" and _match_paren(s, 0) == len(s) - 1) else "(%s)" % s
+
+def lean_strlit(s):
+    out = ['"']
+    for ch in s:
+        out.append({'"': '\\"', "\\": "\\\\", "\n": "\\n", "\t": "\\t", "\r": "\\r"}.get(ch, ch))
+    return "".join(out) + '".toList'
+
+def rnum(v):
+    base, off = v[1], v[2]
+    if base is None: return str(off) if off >= 0 else "(%d)" % off
+    if off == 0: return base
+    return "%s %s %d" % (base, "+" if off > 0 else "-", abs(off))
+
+def ropt(v):
+    if v[0] == "none": return "none"
+    if v[0] == "some": return "some %s" % _par(rval(v[1]))
+    return v[1]
+
+def rval(v):
+    """a value as a Lean term of its own type (booleans as `Bool`)"""
+    k = v[0]
+    if k == "T": return "true"
+    if k == "F": return "false"
+    if k in ("b", "e", "s"): return v[1]
+    if k == "ctor": return v[2]
+    if k == "and": return "(%s && %s)" % (rval(v[1]), rval(v[2]))
+    if k == "or": return "(%s || %s)" % (rval(v[1]), rval(v[2]))
+    if k == "not": return "(!%s)" % _par(rval(v[1]))
+    if k == "getD": return "%s.getD %s" % (_par(ropt(v[1])), _par(rval(v[2])))
+    if k == "isNone": return "%s.isNone" % _par(ropt(v[1]))
+    if k == "streq": return "(%s == %s)" % (v[1], lean_strlit(v[2]))
+    if k == "icmp": return "decide (%s %s %d)" % (rnum(v[2]), v[1], v[3])
+    if k == "app": return "%s %s" % (v[1], _par(ropt(v[2])))
+    if k in ("none", "some", "o"): return ropt(v)
+    if k == "n": return rnum(v)
+    fail("render: value %r" % (k,))
+
+def rprop(v, top=True):
+    """a boolean value as the condition of a Lean `if`"""
+    k = v[0]
+    if k == "streq": return "%s = %s" % (v[1], lean_strlit(v[2]))
+    if k == "icmp": return "%s %s %d" % (rnum(v[2]), v[1], v[3])
+    if k in ("and", "or"):
+        a, b = rprop(v[1], False), rprop(v[2], False)
+        if v[1][0] in ("and", "or") and v[1][0] != k: a = "(%s)" % a
+        if v[2][0] in ("and", "or") and v[2][0] != k: b = "(%s)" % b
+        return a + (" ∧ " if k == "and" else " ∨ ") + b
+    if k == "not":
+        a = v[1]
+        if a[0] == "streq": return "%s ≠ %s" % (a[1], lean_strlit(a[2]))
+        if a[0] in ("icmp", "and", "or"): return "¬ (%s)" % rprop(a)
+        return "%s = false" % rval(a)
+    return rval(v)
+
+def crender(expr, indent, cfg, mode):
+    pad = "  " * indent
+    k = expr[0]
+    if k == "ite":
+        return "%sif %s then\n%s\n%selse\n%s" % (pad, rprop(expr[1]), crender(expr[2], indent + 1, cfg, mode), pad, crender(expr[3], indent + 1, cfg, mode))
+    if k == "matchenum":
+        out = "%smatch %s with" % (pad, expr[1])
+        for ctor, tree in expr[2]:
+            out += "\n%s| %s =>\n%s" % (pad, ctor, crender(tree, indent + 1, cfg, mode))
+        return out
+    if k == "matchopt":
+        return "%smatch %s with\n%s| some %s =>\n%s\n%s| none =>\n%s" % (
+            pad, expr[1], pad, expr[2], crender(expr[3], indent + 1, cfg, mode), pad, crender(expr[4], indent + 1, cfg, mode))
+    if k == "matchev":
+        lo, hi, (okv, okt), (errv, errt) = expr[1:]
+        a = cfg.args_var
+        out = "%sif %s ≤ %s ∧ %s ≤ %s.length then\n" % (pad, lo, hi, hi, a)
+        out += "%s  match %s ((%s.drop %s).take (%s - %s)) with\n" % (pad, cfg.ev_var, a, _par(lo), hi, _par(lo))
+        out += "%s  | .ok %s =>\n%s\n" % (pad, okv, crender(okt, indent + 2, cfg, mode))
+        out += "%s  | .err %s =>\n%s\n" % (pad, errv, crender(errt, indent + 2, cfg, mode))
+        out += "%s  | .panic =>\n%s    .panic\n" % (pad, pad)
+        out += "%selse\n%s  .panic" % (pad, pad)
+        return out
+    if k == "cont":
+        env = expr[1]
+        if not env.dirty: return "%s.cont %s" % (pad, cfg.state_var)
+        return "%s.cont { %s with %s }" % (pad, cfg.state_var, ", ".join(
+            "%s := %s" % (cfg.locals[n][0], rval(env.vals[n])) for n in env.dirty))
+    if k == "ret":
+        return "%s%s %s" % (pad, ".ret" if mode == "step" else ".ok", _par(rval(expr[1])))
+    if k == "err":
+        return "%s.err .%s" % (pad, expr[1])
+    if k == "errpass":
+        return "%s.err %s" % (pad, expr[1])
+    if k == "panic":
+        return "%s.panic" % pad
+    fail("render: %r" % (k,))
